@@ -377,6 +377,9 @@ def gen_dir(rng, nsrc):
     files = []
     for _ in range(nfiles):
         stem = rng.choice(["p", "plasmid", "pX.1", "a-b", "Q_7", "v2.final"]) + str(rng.randrange(1000))
+        if rng.random() < 0.3:
+            # names that end in letters of their own extension, or in a dot
+            stem = rng.choice(["pLab", "big", "kgb", "lab.g", "pB", "gbk", "tag.", "bbb"]) + rng.choice(["", str(rng.randrange(10)) + "g", "b"])
         if stem in stems:
             continue
         stems.add(stem)
